@@ -449,6 +449,42 @@ def check_index_wraparound(idx: Index, rep: Report) -> None:
     r.ok("format loops scanned", f"{n_loops} zero-based index loops in print / parse code")
 
 
+def check_reserved_names_source(idx: Index, rep: Report) -> None:
+    """The names an attr-dict directive elides on print and refuses on parse are the *attributes* the format prints by
+    name.  A property printed by a variable lives in another dictionary: a discardable attribute that happens to have the
+    same name must still go through attr-dict."""
+    r = rep.rule("C05.R10", "the reserved names handed to AttrDictDirective by the format parser are the attribute names seen in the format, nothing else (not the property names)", floor=1)
+    DAFP = "xdsl/irdl/declarative_assembly_format_parser.py"
+    n = 0
+    for f in raw_funcs(idx.module(DAFP)):
+        cfg = None
+        for c in calls_in(f.node):
+            if call_attr(c) != "AttrDictDirective" and unparse(c.func) != "AttrDictDirective":
+                continue
+            kw = {k.arg: k.value for k in c.keywords}
+            e = kw.get("reserved_attr_names")
+            if e is None:
+                continue
+            n += 1
+            if cfg is None:
+                cfg = CFG(f.node)
+            d = describe_set(f.node, cfg, e, cfg.node_of(c))
+            inst = f"{f.fq}:reserved_attr_names"
+            if d.unknown:
+                raise AnalysisError(f"{f.fq}: construction of reserved_attr_names not understood: {d.unknown[:2]}")
+            extra = sorted(b for b in d.bases if b != "self.seen_attributes") + [a.elem for a in d.adds]
+            if extra:
+                r.fail(inst, Finding("C05.R10", f.fq, f"reserved-names-extra:{extra[0]}", f"`{unparse(e)}` also reserves {extra}: a discardable attribute with the name of a property that the format prints through a variable is silently dropped from the custom form and refused when parsed back, while the generic form keeps it", f"{DAFP}:{c.lineno}"))
+            elif d.bases == {"self.seen_attributes"}:
+                r.ok(inst, f"{DAFP}:{c.lineno} reserved names = the attribute names of the format")
+            elif not d.bases and isinstance(e, ast.Call) and unparse(e) == "set()":
+                r.ok(inst, f"{DAFP}:{c.lineno} nothing reserved")
+            else:
+                raise AnalysisError(f"{f.fq}: reserved_attr_names `{unparse(e)}` has no recognised source")
+    if n == 0:
+        raise AnalysisError(f"{DAFP}: no AttrDictDirective(reserved_attr_names=...) construction found")
+
+
 def check(idx: Index, rep: Report, tier: str) -> str:
     rep.run(check_directive_pairs, idx, rep)
     rep.run(check_op_pairs, idx, rep, tier)
@@ -460,6 +496,7 @@ def check(idx: Index, rep: Report, tier: str) -> str:
     rep.run(check_index_list_reader, idx, rep)
     rep.run(check_default_inference, idx, rep)
     rep.run(check_index_wraparound, idx, rep)
+    rep.run(check_reserved_names_source, idx, rep)
     return (
         "Pairing / sibling-agreement rules over the declarative format engine and every hand-written operation format: "
         "parse+print pairing, consumed-input polarity of all parse implementations, set_empty discipline of optional groups, "
